@@ -553,3 +553,7 @@ mod test {
         assert_eq!(format!("{}", m), exp)
     }
 }
+
+#[cfg(all(transparencies_stretto_verif, any(kani, test)))]
+#[path = "/verif/harness/h_metrics.rs"]
+mod verif_harness;
